@@ -35,8 +35,17 @@ def handleSched (lanes kmax : Nat) (vals : List F) : List String :=
     | none => (List.range preps.length).map SchedEntry.op
   let rows := scheduledPrepRows preps lanes kmax sched
   let rows := (rows.reverse.dropWhile fun r => r.all (· == 0)).reverse
+  -- certificate: the interactions the AIR declares on the scheduled rows (`aluInteractions`) are, as a
+  -- multiset of non-zero `(index, multiplicity)` pairs, the `entryInters` of the schedule entries — the
+  -- link between the matrix and the statement of `P3R.C11.schedule_preserves_bus`
+  let norm := fun (l : List (F × F)) =>
+    ((l.filter fun im => im.2 != 0).map fun im => (im.1.val, im.2.val)).mergeSort
+      (fun a b => a.1 < b.1 || (a.1 == b.1 && a.2 ≤ b.2))
+  let fromRows := norm ((scheduledPrepRows preps lanes kmax sched).flatMap (rowIdxMults lanes kmax))
+  let fromEntries := norm (sched.flatMap (entryInters preps))
   [s!"s {" ".intercalate (sched.map showEntry)}",
-   s!"m {rows.length} {" ; ".intercalate (rows.map showVec)}"]
+   s!"m {rows.length} {" ; ".intercalate (rows.map showVec)}",
+   if fromRows == fromEntries then "ichk ok" else "ichk FAIL"]
 
 def handle (line : String) : List String :=
   match line.trimAscii.toString.splitOn "|" with
